@@ -37,7 +37,7 @@ theorem idle_again_good (s : S) (script : List Op) (evs : List Ev)
 theorem quiescent_when_idle (s : S) (ev : Ev) (hidle : s.phase = .idle) (hev : ev.internal = true) :
     (step s ev).phase = .idle ∧ (step s ev).written = s.written ∨ Terminating (step s ev) := by
   cases ev with
-  | handshake _ => simp [Ev.internal] at hev
+  | handshake _ _ _ => simp [Ev.internal] at hev
   | cmd _ => simp [Ev.internal] at hev
   | lose => simp [Ev.internal] at hev
   | resume => left; simp only [step, hidle]; split <;> exact ⟨hidle, rfl⟩
